@@ -1,6 +1,6 @@
 (* ComposeMulti.v — C13/C14 end to end: the inner-index hypothesis of MultiBigmin.multi_index_correct
    discharged by the index contract (ComposeIdx.search_contract) for every query below the sentinel. *)
-Require Import Base Fp PlaModel GenLeaf IndexModel IndexProofs MultiModel MultiMorton MultiRange MultiBigmin IdxChain ComposeIdx.
+Require Import Base Fp PlaModel GenLeaf IndexModel IndexProofs MultiModel MultiMorton MultiRange MultiBigmin IdxChain ComposeIdx ComposeBuild.
 From Coq Require Import ZifyBool Permutation.
 Local Open Scope Z_scope.
 
@@ -111,6 +111,40 @@ Proof.
   destruct (Z_lt_ge_dec q (sentinel (m_cfg m))) as [Hlt|Hge]; [|apply Hbeyond; lia].
   destruct (multi_inner_contract m points mu Hv Hkt Hc Hf Hok Hne Hn32 Hb Hs32 q Hlt)
     as (lo & hi & E & H). exists lo, hi. tauto.
+Qed.
+
+(* the size hypothesis on the built index discharged by ComposeBuild.build_segs32 (at most 2^30 points) *)
+Lemma multi_segs32 m points mu :
+  valid_mcfg m -> c_kt (m_cfg m) = mkK (m_tbits m) false -> idx_ok (m_cfg m) -> cfg_small (m_cfg m) ->
+  Forall (point_ok m) points -> points <> [] -> zlen points <= 2 ^ 30 ->
+  multi_build m points = Ok mu -> zlen (ix_segments (mu_ix mu)) < 2 ^ 32.
+Proof.
+  intros Hv Hkt Hc Hsm Hok Hne Hn Hb.
+  pose proof (codes_data_ok m points mu Hv Hkt Hok Hne ltac:(lia) Hb) as Hd.
+  destruct (multi_build_inv m points mu Hb) as [Hbd Hdat].
+  apply (build_segs32 (m_cfg m) (mu_data mu) (mu_ix mu) Hc Hsm Hd); [|exact Hbd].
+  pose proof (Permutation_length (sort_codes_perm (map (encode m) points))) as Hl.
+  rewrite map_length in Hl. rewrite Hdat. unfold zlen in *. lia.
+Qed.
+
+Theorem multi_index_end_to_end_partial' m points mu :
+  valid_mcfg m -> c_kt (m_cfg m) = mkK (m_tbits m) false -> idx_ok (m_cfg m) -> cfg_small (m_cfg m) ->
+  float_ok_all (m_cfg m) ->
+  Forall (point_ok m) points -> points <> [] -> zlen points <= 2 ^ 30 ->
+  multi_build m points = Ok mu ->
+  forall Hbeyond : (forall q, sentinel (m_cfg m) <= q -> exists lo hi, multi_range_of m mu q = Ok (lo, hi) /\ 0 <= lo /\
+     lo <= lb (mu_data mu) q /\ lb (mu_data mu) q <= hi /\ hi <= zlen (mu_data mu)),
+  let stored := map (decode m) (mu_data mu) in
+  Permutation stored points /\
+  (forall p, zlen p = m_dims m -> coords_ok (field_bits m) p ->
+     exists b, multi_contains m mu p = Ok b /\ (b = true <-> In p points)) /\
+  (forall pmin pmax, zlen pmin = m_dims m -> zlen pmax = m_dims m ->
+     coords_ok (field_bits m) pmin -> coords_ok (field_bits m) pmax -> Forall2 Z.le pmin pmax ->
+     multi_range m mu pmin pmax = Ok (filter (in_boxb pmin pmax) stored)).
+Proof.
+  intros Hv Hkt Hc Hsm Hf Hok Hne Hn Hb.
+  exact (multi_index_end_to_end_partial m points mu Hv Hkt Hc Hf Hok Hne ltac:(lia) Hb
+           (multi_segs32 m points mu Hv Hkt Hc Hsm Hok Hne Hn Hb)).
 Qed.
 
 Print Assumptions multi_inner_contract.
